@@ -309,10 +309,9 @@ func main() {
 		var units []unit
 		for i, p := range scs {
 			n := 6
-			if c.Thorough() {
-				n = 16
+			if c.Thorough() || len(p.Env) >= 3 {
+				n = 16 // the three-event environments have the largest schedule trees
 			}
-			_ = p
 			for k := 0; k < n; k++ {
 				units = append(units, unit{i, k, n})
 			}
